@@ -149,7 +149,69 @@ def files_oracle(fields, impl, model):
 
 
 # pid -> list of streams; each stream: harness name, model runner, oracle runner, counts
+
+def slot_words(fields):
+    """typed words and current word of a `slot` case (after the command-tree tokens)"""
+    def skip(t):
+        n = int(t[2]); t = t[3 + n:]
+        nf = int(t[0]); t = t[1 + 4 * nf:]
+        ns = int(t[1]); t = t[2:]
+        for _ in range(ns):
+            t = skip(t)
+        return t
+    t = skip(fields)
+    n = int(t[0])
+    return t[1:1 + n], t[1 + n]
+
+
+def slot_oracle(fields, impl):
+    """C01 on generated command trees: the completion offered for the current word carries the marker
+    of ONE slot; the program itself (cobra + pflag executing the same tree on the line with the word
+    completed) must deliver the completed word to exactly that slot."""
+    if not impl or impl[0] != b"ok":
+        return [("no-export", impl[0] if impl else b"")]
+    slots, delivered = impl[1].split(b"+") if impl[1] else [], impl[2]
+    if delivered in (b"-", b"rejected"):
+        return []          # nothing offered for a slot / the program rejects the line: no claim
+    if delivered not in slots:
+        return [("slot-mismatch", impl[1] + b" -> " + delivered)]
+    return []
+
+
+SLOT_SUBS = {b"alpha", b"beta", b"gamma", b"sub", b"run", b"x"}
+def _is_sub(w):
+    return (w[:-6] if w.endswith(b"-alias") else w) in SLOT_SUBS
+
+
+def pred_slot_parent_flag_before_subcommand(f):
+    """a word cobra skips (`` or `-`) and a flag word, both typed before a sub-command name"""
+    ws, _ = slot_words(f["case"])
+    for k, w in enumerate(ws):
+        if _is_sub(w):
+            before = ws[:k]
+            if any(x in (b"", b"-") for x in before) and any(len(x) > 1 and x.startswith(b"-") for x in before):
+                return True
+    return False
+
+
+def pred_slot_chain_before_subcommand(f):
+    """a chain of shorthands (-abc, no `=`) directly before a sub-command name"""
+    import re
+    ws, _ = slot_words(f["case"])
+    return any(re.fullmatch(rb"-[A-Za-z]{2,}", a) and _is_sub(b) for a, b in zip(ws, ws[1:]))
+
+
 PROPS = {
+    "C01": dict(streams=[dict(harness="slotfrag", model="slot", oracle=None, quick=6000, thorough=60000, nontrivial=lambda f, impl: len(impl) > 1 and impl[1] != b"M"),
+                         dict(harness="slot", model=None, oracle_py=slot_oracle, quick=9000, thorough=120000,
+                              nontrivial=lambda f, impl: len(impl) > 2 and impl[2] not in (b"-", b"rejected"))],
+                tie="Model/Pflag.v traverse (one command, long-form words) <-> real `_carapace export` on the same flags and line: the slot (flag value + prefix / bool value / positional i / dash i / flag names / message) must be equal",
+                rule="slotfrag: one cobra command with 0-4 flags of kinds bool/count/string/stringSlice/optional-argument, both interspersed modes, 0-5 typed words out of "
+                     "{--name, --name=value (a value the type accepts; for strings also empty, a=b, -, --), --namex, --, empty word, --unknown, --=x, ---x, plain words}, current word "
+                     "empty / plain / partial or complete --name / --name=partial; slot: generated command TREES (depth <= 3, aliases, persistent / hidden / deprecated flags, "
+                     "shorthands, shorthand chains, -s=v, non-interspersed commands, hidden / deprecated sub-commands), 0-4 typed words from the tree's own vocabulary plus "
+                     "--, -, empty, unknown flags; every flag / positional / dash slot of every command carries its own marker action; the completed line is executed by a "
+                     "fresh identical tree and the slot that received the completed word is compared; non-trivial = a slot marker was offered and the program accepts the line"),
     "C11": dict(streams=[dict(harness="multiparts", model="multiparts", oracle="multiparts_oracle", quick=6000, thorough=200000)],
                 tie="Model/MultiParts.v (tokenize, ToMultiPartsA) <-> real Action.MultiParts",
                 rule="cases = (match mode, typed text, dividers, value list with description/style/tag) from VERIF_SEED by harness/multiparts.go "
